@@ -39,6 +39,9 @@ ASSUMPTIONS = [
 ]
 
 NAMES = ['value', 'p', 'q', 'controlled_by']       # modelled parameter names, code = index
+# parameters with container / convenience datatypes ($ units in the members); implementation + oracle only
+EXTRA = ['r', 'lim', 'tup', 'arr', 'st', 'status']
+XUNITS = ['$', '$/min', 'K', '']
 ENUM_NAME = 'controlled_by'
 CMD = 'cmd'
 PKEYS = {'description': 0, 'group': 1, 'value': 2, 'min': 3, 'max': 4, 'unit': 5}
@@ -47,14 +50,20 @@ PROBES = [-100, -7, -3, -1, 0, 1, 2, 3, 5, 7, 10, 100]
 
 # ------------------------------------------------------------------ string <-> code
 def s_desc(k):
+    if isinstance(k, str):
+        return k
     return None if k is None else ('' if k == 0 else f'd{k}')
 
 
 def s_group(k):
+    if isinstance(k, str):
+        return k
     return None if k is None else ('' if k == 0 else f'g{k}')
 
 
 def s_unit(k):
+    if isinstance(k, str):
+        return k
     return None if k is None else ('' if k == 0 else f'u{k}')
 
 
@@ -215,13 +224,42 @@ class _World:
             return FloatRange(spec[1], spec[2], **kw)
         return EnumType(members={s_mem(n): v for n, v in spec[1]})
 
+    def mk_xdt(self, kind, unit):
+        from frappy.datatypes import FloatRange, IntRange, StringType, BoolType, TupleOf, ArrayOf, StructOf, \
+            LimitsType, StatusType
+        if kind == 'r':
+            return FloatRange(0, 100, unit=unit)
+        if kind == 'lim':
+            return LimitsType(FloatRange(0, 50, unit=unit))
+        if kind == 'tup':
+            return TupleOf(FloatRange(unit=unit), StringType(), IntRange(0, 5))
+        if kind == 'arr':
+            return ArrayOf(FloatRange(-1, 1, unit=unit), 0, 4)
+        if kind == 'st':
+            return StructOf(a=FloatRange(unit=unit), b=TupleOf(FloatRange(0, 9, unit=unit), BoolType()))
+        return StatusType('IDLE', 'BUSY', 'ERROR')
+
     def define(self, idx, c):
         from frappy.modules import Module
-        from frappy.params import Parameter, Command
+        from frappy.params import Parameter, Command, Limit
         body = {}
         created = []
         for attr, e in c['dict']:
             kind = e[0]
+            if kind == 'xparam':
+                s = e[1]
+                kw = {}
+                if s.get('group') is not None:
+                    kw['group'] = s_group(s['group'])
+                body[attr] = Parameter(s_desc(s.get('desc', 1)), self.mk_xdt(attr, s.get('unit', '')), **kw)
+                if attr == 'r':
+                    body['r_limits'] = Limit()
+                continue
+            if kind == 'xover':
+                s = e[1]
+                kw = {k: v for k, v in (('group', s_group(s.get('group'))), ('unit', s.get('unit'))) if v is not None}
+                body[attr] = Parameter(s_desc(s.get('desc')), **kw)
+                continue
             if kind == 'param':
                 s = e[1]
                 kw = {}
@@ -277,6 +315,10 @@ class _World:
                 cls = self.define(idx, op[1])
                 self.classes[idx] = cls
                 info['mro'] = [self.classes.index(b) for b in cls.__mro__ if b in self.classes]
+                from frappy.params import Accessible
+                # names whose entry in the class __dict__ is an accessible object (includes the ones added by setattr
+                # when a bare value found in a base was turned into a Parameter)
+                info['accnames'] = sorted(n for n, v in cls.__dict__.items() if isinstance(v, Accessible))
             elif kind == 'inst':
                 self.insts.append(None)
                 self.inst_cls.append(op[1])
@@ -298,6 +340,19 @@ class _World:
                 else:
                     v = {'description': s_desc, 'group': s_group, 'unit': s_unit}.get(op[3], lambda x: x)(op[4])
                     inst.parameters[op[2]].setProperty(op[3], v)
+            elif kind == 'setmember':
+                inst = self.insts[op[1]] if op[1] < len(self.insts) else None
+                if inst is None or op[2] not in inst.parameters:
+                    info['exc'] = 'skip'
+                else:
+                    try:
+                        dt = inst.parameters[op[2]].datatype
+                        for sel in op[3]:
+                            dt = dt.members if sel == 'm' else dt.members[sel]
+                        dt.setProperty(op[4], op[5])
+                    except Exception as e:
+                        info['exc'] = 'skip'
+                        info['why'] = f'{type(e).__name__}: {str(e)[:100]}'
             elif kind == 'grow':
                 from frappy.mixins import HasControlledBy
                 from frappy.datatypes import EnumType
@@ -350,53 +405,60 @@ class _World:
         return [[ci, n] for ci, n, o, orig in self.own if _dtexport(o.ownProperties.get('datatype')) != orig]
 
     def shared_with_instances(self):
-        """Parameter / datatype objects (recursively through members) of an instance that are reachable elsewhere"""
+        """objects (Parameter / Command objects and, recursively through members / argument / result, datatype
+        objects) reachable from an instance AND from a class or another instance.  Only objects that can be changed in
+        place are reported (accessibles, datatypes with properties: limits, unit, lengths)"""
         from frappy.datatypes import DataType, ValueType
 
-        def reach(o, acc):
+        def reach(o, acc, path):
             if o is None or isinstance(o, ValueType) or id(o) in acc:
                 return
-            acc[id(o)] = o
+            acc[id(o)] = (o, path)
             if isinstance(o, DataType):
-                for a in ('members', 'argument', 'result', 'other'):
+                for a in ('members', 'argument', 'result', 'other', 'types'):
                     m = getattr(o, a, None) if a in getattr(o, '__dict__', {}) else None
                     if isinstance(m, DataType):
-                        reach(m, acc)
+                        reach(m, acc, f'{path}.{a}')
                     elif isinstance(m, (list, tuple)):
-                        for x in m:
-                            reach(x, acc)
+                        for k, x in enumerate(m):
+                            if isinstance(x, DataType):
+                                reach(x, acc, f'{path}.{a}[{k}]')
                     elif isinstance(m, dict):
-                        for x in m.values():
-                            reach(x, acc)
+                        for k, x in m.items():
+                            if isinstance(x, DataType):
+                                reach(x, acc, f'{path}.{a}[{k!r}]')
             else:
-                for d in (o.propertyValues, o.ownProperties or {}):
-                    for v in d.values():
+                for dn, d in (('propertyValues', o.propertyValues), ('ownProperties', o.ownProperties or {})):
+                    for k, v in d.items():
                         if isinstance(v, DataType):
-                            reach(v, acc)
+                            reach(v, acc, f'{path}.{dn}[{k!r}]')
         sets = {}
         for i, cls in enumerate(self.classes):
             if cls is not None:
                 acc = {}
-                for v in list(cls.__dict__.values()) + list(getattr(cls, 'accessibles', {}).values()):
+                for n, v in list(cls.__dict__.items()) + list(getattr(cls, 'accessibles', {}).items()):
                     if hasattr(v, 'propertyValues') and hasattr(v, 'ownProperties'):
-                        reach(v, acc)
-                sets[f'c{i}'] = acc
+                        reach(v, acc, n)
+                sets[('c', i)] = acc
         for i, inst in enumerate(self.insts):
             if inst is not None:
                 acc = {}
-                for v in inst.accessibles.values():
-                    reach(v, acc)
-                sets[f'i{i}'] = acc
+                for n, v in inst.accessibles.items():
+                    reach(v, acc, n)
+                sets[('i', i)] = acc
         bad = []
-        keys = list(sets)
-        for a in keys:
-            if not a.startswith('i'):
+        for a in sets:
+            if a[0] != 'i':
                 continue
-            for b in keys:
-                if b != a and (b.startswith('c') or b > a):
-                    if set(sets[a]) & set(sets[b]):
-                        bad.append([a, b])
-        return bad
+            for b in sets:
+                if b == a or (b[0] == 'i' and b[1] < a[1]):
+                    continue
+                for k in set(sets[a]) & set(sets[b]):
+                    o, pa = sets[a][k]
+                    if isinstance(o, DataType) and not o.propertyDict:
+                        continue       # nothing that could be changed in place
+                    bad.append([f'{a[0]}{a[1]}', f'{b[0]}{b[1]}', type(o).__name__, pa, sets[b][k][1]])
+        return sorted(bad)[:12]
 
 
 _counter = [0]
@@ -488,7 +550,10 @@ def key_chain(case, obs, ci, name):
     """indices of the classes along the MRO of class ci (base first) whose body mentions name"""
     cl = class_ops(case)
     mro = mro_of(case, obs)[ci] or []
-    return [b for b in reversed(mro) if any(a == name for a, _ in cl[b]['dict'])]
+    if name == 'r_limits':      # written together with a full definition of r
+        return [b for b in reversed(mro) if any(a == 'r' and e[0] == 'xparam' for a, e in cl[b]['dict'])]
+    accn = [i.get('accnames') or [] for i, op in zip(obs['ops'], case['ops']) if op[0] == 'class']
+    return [b for b in reversed(mro) if any(a == name for a, _ in cl[b]['dict']) or (b < len(accn) and name in accn[b])]
 
 
 def strip(desc):
@@ -534,13 +599,25 @@ def oracle(case, obs):
         for ent, desc in delta:
             if ent in state and ent not in addressed and strip(state[ent]) != strip(desc):
                 what = {'class': 'defining a class', 'inst': 'creating and configuring an instance',
-                        'setprop': 'changing a property of one instance', 'grow': 'extending the enum of one instance'}[kind]
+                        'setprop': 'changing a property of one instance', 'grow': 'extending the enum of one instance',
+                        'setmember': 'changing a property of a member datatype of one instance'}[kind]
                 fails.append({'class': ('class' if ent[0] == 'c' else 'instance') + '-changed-by-' + kind,
                               'what': f'op {t} ({what}: {op[1] if kind != "class" else new}) changed the description of '
                                       f'{ent}: accessibles {changed_names(state[ent], desc)}',
                               'entity': ent, 'names': changed_names(state[ent], desc), 'op': t})
             state[ent] = desc
     # a description is a function of the own class chain and own configuration only
+    # no changeable object may be reachable from an instance and from anything else: a property change (or the
+    # replacement of $ by the main unit) made through one owner would change the other
+    seen_pairs = set()
+    for a, b, typ, pa, pb in obs['inst_shared']:
+        if (a, b) in seen_pairs:
+            continue
+        seen_pairs.add((a, b))
+        fails.append({'class': 'object-shared-between-' + ('instance-and-class' if b[0] == 'c' else 'instances'),
+                      'what': f'the {typ} object at {a}:{pa} is the same object as {b}:{pb}: changing it through one of '
+                              f'them changes the other',
+                      'entity': a, 'names': [pa.split('.')[0]], 'op': len(obs['ops']) - 1})
     for ent, names in sorted(obs['iso_diff'].items()):
         fails.append({'class': ('class' if ent[0] == 'c' else 'instance') + '-depends-on-others',
                       'what': f'the description of {ent} differs from the one obtained when only its own class '
@@ -709,8 +786,10 @@ def enc_op(op, info):
         return '(ODefine {| d_module := %s; d_mro := %s; d_dict := %s |})' % (
             gal.boolean(c['module']), gal.lst(info['mro'], gal.nat),
             gal.lst(d, lambda p: f'({gal.nat(NAMES.index(p[0]))}, {enc_entry(p[1])})'))
+    if k == 'setmember':
+        return '(OSetProp %s 99%%nat 0%%nat (0)%%Z)' % gal.nat(op[1])     # not modelled: no effect on the modelled part
     if k == 'inst':
-        cfg = [(n, kvs) for n, kvs in op[2]]
+        cfg = [(n, kvs) for n, kvs in op[2] if n in NAMES]
         return '(OInst %s %s)' % (gal.nat(op[1]), gal.lst(cfg, lambda p: '(%s, %s)' % (
             gal.nat(NAMES.index(p[0]) if p[0] in NAMES else 99),
             gal.lst(p[1], lambda kv: f'({gal.nat(PKEYS[kv[0]])}, {gal.z(kv[1])})'))))
@@ -734,7 +813,7 @@ def canon_ids(vec):
 def encode(case, obs):
     ops, dl, oks = [], [], []
     for op, info, delta in zip(case['ops'], obs['ops'], obs['deltas']):
-        if info['exc'] and op[0] in ('setprop', 'grow') and info['exc'] != 'skip':
+        if info['exc'] and op[0] in ('setprop', 'grow', 'setmember') and info['exc'] != 'skip':
             raise ValueError('run-time op raised: ' + info['exc'])
         ops.append(enc_op(op, info))
         oks.append(gal.boolean(info['exc'] is None))
@@ -847,6 +926,7 @@ class _Gen:
     def __init__(self, rng):
         self.rng = rng
         self.module, self.bases, self.has_dt, self.has_any = [], [], [], []
+        self.x_def, self.x_none = [], []      # extra names fully defined / removed somewhere in the ancestor closure
 
     def new_class(self):
         rng = self.rng
@@ -879,14 +959,62 @@ class _Gen:
                 anyn.add(name)
                 if e[0] == 'cmd' or (e[0] == 'param' and e[1].get('dt')):
                     dt = dt | {name}
+        xd = set().union(*[self.x_def[b] for b in bases]) if bases else set()
+        xn = set().union(*[self.x_none[b] for b in bases]) if bases else set()
+        for name in EXTRA:
+            if rng.random() >= (0.22 if module else 0.15):
+                continue
+            r = rng.random()
+            if name not in xd or r < 0.2:
+                d.append([name, ['xparam', {'desc': rng.choice([1, 2, 3]), 'unit': rng.choice(XUNITS),
+                                            'group': rng.choice([None, None, 1])}]])
+                xd = xd | {name}
+            elif r < 0.8 or name == 'r':
+                o = {}
+                if rng.random() < 0.6:
+                    o['desc'] = rng.choice([4, 5])
+                if rng.random() < 0.4:
+                    o['group'] = rng.choice([0, 2])
+                if name in ('r', 'arr') and rng.random() < 0.5:
+                    o['unit'] = rng.choice(XUNITS)
+                d.append([name, ['xover', o]])
+            else:
+                d.append([name, ['none']])
+                xn = xn | {name}
         self.module.append(module)
         self.bases.append(bases)
         self.has_dt.append(dt)
         self.has_any.append(anyn)
+        self.x_def.append(xd)
+        self.x_none.append(xn)
         return {'module': module, 'bases': bases, 'dict': d}
+
+    def sure_extras(self, ci):
+        return sorted(self.x_def[ci] - self.x_none[ci])
+
+
+MEMBER_PATHS = {'r': [[]], 'r_limits': [[0]], 'lim': [[0], [1]], 'tup': [[0]], 'arr': [['m']], 'st': [['a'], ['b', 0]]}
+
+
+def rand_xcfg(rng, extras):
+    cfg = []
+    for name in extras:
+        if rng.random() < 0.3:
+            if name in ('r', 'arr') and rng.random() < 0.6:
+                cfg.append([name, [['unit', rng.choice(XUNITS + ['m$'])]]])
+            else:
+                cfg.append([name, [rng.choice([['description', 'x7'], ['group', 'xg']])]])
+    return cfg
 
 
 def rand_cfg(rng, names):
+    cfg = rand_cfg0(rng, names)
+    if 'value' in names and rng.random() < 0.35 and not any(n == 'value' for n, _ in cfg):
+        cfg.append(['value', [['unit', rng.choice([4, 5, 6])]]])      # instances with different main units
+    return cfg
+
+
+def rand_cfg0(rng, names):
     cfg = []
     pool = [n for n in NAMES if n in names] or NAMES
     if rng.random() < 0.08:
@@ -914,10 +1042,18 @@ def rand_case(rng, nops=None):
         mods = [i for i in range(n_cls) if g.module[i]]
         if n_cls < 2 or r < 0.45 or not mods:
             ops.append(['class', g.new_class()])
-        elif r < 0.68 or not inst_cls:
-            ci = rng.choice(mods)
-            ops.append(['inst', ci, rand_cfg(rng, g.has_any[ci])])
+        elif r < 0.66 or not inst_cls:
+            ci = rng.choice(inst_cls) if inst_cls and rng.random() < 0.45 else rng.choice(mods)
+            ops.append(['inst', ci, rand_cfg(rng, g.has_any[ci]) + rand_xcfg(rng, g.sure_extras(ci))])
             inst_cls.append(ci)
+        elif r < 0.74 and any(g.sure_extras(c) for c in inst_cls):
+            ii = rng.choice([k for k, c in enumerate(inst_cls) if g.sure_extras(c)])
+            name = rng.choice(g.sure_extras(inst_cls[ii]))
+            if name == 'r' and rng.random() < 0.4:
+                name = 'r_limits'
+            path = rng.choice(MEMBER_PATHS.get(name, [[0]]))
+            key, v = rng.choice([['max', 7], ['max', 33], ['unit', 'mV'], ['unit', '$'], ['min', -2]])
+            ops.append(['setmember', ii, name, path, key, v])
         elif r < 0.9:
             ii = rng.randrange(len(inst_cls))
             pool = [n for n in NAMES if n in g.has_any[inst_cls[ii]]] or NAMES
@@ -964,6 +1100,28 @@ def exhaustive_cases(limit=None):
     return out[:limit] if limit else out
 
 
+def nested_cases():
+    """one class (optionally a subclass without body) with a main value and one container / convenience parameter with
+    a $ unit, two or three instances with different main units, a change of a member datatype property of one"""
+    out = []
+    val = ['param', {'desc': 1, 'dt': ['float', 0, 10, 1], 'inherit': True}]
+    for name in ['r', 'lim', 'tup', 'arr', 'st']:
+        for unit in ('$', '$/min'):
+            for sub in (False, True):
+                for path in MEMBER_PATHS[name] + (MEMBER_PATHS['r_limits'] if name == 'r' else []):
+                    target = 'r_limits' if (name == 'r' and path == [0]) else name
+                    for key, v in (('max', 7), ('unit', 'mV')):
+                        ops = [['class', {'module': True, 'bases': [], 'dict': [['value', val], [name, ['xparam', {'desc': 2, 'unit': unit}]]]}]]
+                        ci = 0
+                        if sub:
+                            ops.append(['class', {'module': True, 'bases': [0], 'dict': []}])
+                            ci = 1
+                        ops += [['inst', ci, [['value', [['unit', 4]]]]], ['inst', ci, [['value', [['unit', 5]]]]],
+                                ['setmember', 0, target, path, key, v], ['inst', ci, []], ['inst', 0, []]]
+                        out.append({'ops': ops})
+    return out
+
+
 def gen_cases(seed, tier):
     rng = random.Random(seed * 1000003 + 9)
     n = {'quick': 3000, 'thorough': 24000, 'search': 24000}[tier]
@@ -972,7 +1130,7 @@ def gen_cases(seed, tier):
     if tier == 'quick':
         rng2 = random.Random(seed + 99)
         ex = rng2.sample(ex, 300)
-    return cases + ex
+    return nested_cases() + cases + ex
 
 
 def shrink(case):
@@ -998,11 +1156,11 @@ def shrink(case):
             yield {'ops': ops[:i] + rest}
         elif op[0] == 'inst':
             ii = sum(1 for o in ops[:i] if o[0] == 'inst')
-            if any(o[0] in ('setprop', 'grow') and o[1] == ii for o in ops[i + 1:]):
+            if any(o[0] in ('setprop', 'grow', 'setmember') and o[1] == ii for o in ops[i + 1:]):
                 continue
             rest = []
             for o in ops[i + 1:]:
-                if o[0] in ('setprop', 'grow') and o[1] > ii:
+                if o[0] in ('setprop', 'grow', 'setmember') and o[1] > ii:
                     o = [o[0], o[1] - 1] + list(o[2:])
                 rest.append(o)
             yield {'ops': ops[:i] + rest}
